@@ -227,9 +227,43 @@ var c19Benign = []string{
 	"Obj.keys.sort.p", "Kernel.keys.len.p", "%d.S.p", "<>.p", "<>@{|l| l.p}", "\"#{%d}!\".p", "1.try.A.p", "Err.keys.len.p", "NotImplementedErr.new(\"q%d\").S.p",
 }
 
+// programs that use modules and user-made descendants of built-in values in the places where the interpreter keeps
+// process-wide tables (symbols, module sources): what they leave behind must not reach later programs
+var c19Modules = []string{
+	"invite!(\"dummy\")", "invite!(\"dummy_native\")", "{|| invite!(\"dummy\")}()", "h := import(\"dummy\")\nh.message.p", "{|| invite!(\"dummy_native\"); message}().p",
+	"Loud%d := Str.bear({p: m{\"<<loud>>\".p}, loud: true})\nlm := %%{Loud%d.new(\"zebra%d\"): 1}\nlm[Loud%d.new(\"yak%d\")].p",
+	"Shout%d := \"s\".bear({shout: %d})\n{a: 1}.which(Shout%d.new(\"gnu%d\")).p", "Tag%d := Str.bear({tag: %d})\n(Tag%d.new(\"emu%d\") == \"emu%d\").p\n{q: 1}[Tag%d.new(\"ibis%d\")].p",
+	"MyI%d := Int.bear({mine: true})\n%%{MyI%d.new(%d): 1}.keys.p", "Sy%d := 'fox%d.bear({sy: 1})\n%%{Sy%d: 2}[Sy%d].p",
+}
+
+var c19Fresh = 0
+
+var c19LeakRe = regexp.MustCompile(`(?:new\("|')((?:zebra|yak|gnu|emu|ibis|fox)\d+)`)
+
+// c19LeakProbes: later programs look at the symbols earlier programs hashed through their own descendants of Str
+func c19LeakProbes(progs []string) []string {
+	out := []string{}
+	for _, p := range progs {
+		for _, m := range c19LeakRe.FindAllStringSubmatch(p, -1) {
+			out = append(out, fmt.Sprintf("\"%s := 1; other := 2\".evalEnv.keys@{|k| [k, k.proto == Str, k['loud], k['tag]]}.p", m[1]),
+				fmt.Sprintf("{%s: 1}.keys@{|k| [k.proto == Str, k.S]}.p", m[1]))
+		}
+		if strings.Contains(p, "invite!(") {
+			out = append(out, "message.p", "{|| message}().p")
+		}
+	}
+	return out
+}
+
 func c19Line(c *Ctx, defined *[]string, failing bool) string {
 	r := c.Rng
 	n := r.Intn(50)
+	if !failing && r.Intn(7) == 0 {
+		c19Fresh++
+		t := c19Modules[r.Intn(len(c19Modules))]
+		u := c19Fresh*1000 + int(c.Seed%997)
+		return strings.ReplaceAll(strings.ReplaceAll(t, "%d", fmt.Sprint(u)), "%%", "%")
+	}
 	f := func(t string) string {
 		if strings.Contains(t, "%d") {
 			return fmt.Sprintf(t, n)
@@ -280,7 +314,13 @@ func c19Prog(c *Ctx, failing bool, foreign []string) string {
 	}
 	if len(foreign) > 0 && r.Intn(2) == 0 {
 		// reads a name an earlier program defined: NameErr in a fresh scope
-		lines = append(lines, foreign[r.Intn(len(foreign))]+".p")
+		// (entries that are whole statements are the probes of c19LeakProbes)
+		f := foreign[r.Intn(len(foreign))]
+		if strings.Contains(f, ".p") {
+			lines = append(lines, f)
+		} else {
+			lines = append(lines, f+".p")
+		}
 	}
 	if failing {
 		lines = append(lines, c19Line(c, &defined, true))
@@ -291,7 +331,10 @@ func c19Prog(c *Ctx, failing bool, foreign []string) string {
 var c19DefRe = regexp.MustCompile(`(?m)^([A-Za-z]+) :=`)
 
 func c19Defined(progs []string) []string {
-	out := []string{}
+	out := c19LeakProbes(progs)
+	if len(out) > 0 && len(out) < 4 {
+		out = append(out, out...) // favour the leak probes when there are any
+	}
 	for _, p := range progs {
 		for _, m := range c19DefRe.FindAllStringSubmatch(p, -1) {
 			out = append(out, m[1])
